@@ -215,10 +215,95 @@ Fixpoint r_run (m : rmap) (ops : list op) : rmap :=
 Definition init (root : option N) : tree := Node root [].
 Definition r_init (root : option N) : rmap := match root with Some v => [([], v)] | None => [] end.
 
-(* ---- known finding 0: Move whose source FsNode exists only as a leftover
-   placeholder (no node at or below it) while something is cached at or below
-   the target: the cache drops the target subtree, the reference (source
-   missing) keeps it.  Decided on the model tree and the reference side by side. *)
+(* ============ placeholder-aware reference (flat, no tree) ============ *)
+(* The flat map above forgets directories that hold nothing.  This second
+   reference remembers them: the cache content ([p_vals], the same flat map with
+   the same set/delete/re-key operations) plus the set of paths at which an
+   FsNode exists ([p_dirs], explicitly prefix-closed: a Set of /a/x/y creates
+   /, /a, /a/x and /a/x/y).  It is defined on paths only and shares nothing with
+   [tree] but [path_eqb]/[is_prefix]. *)
+Record pstate := { p_vals : rmap; p_dirs : list path }.
+
+(* every prefix of p, from [] to p itself *)
+Fixpoint prefixes (p : path) : list path :=
+  [] :: match p with [] => [] | n :: p' => map (cons n) (prefixes p') end.
+
+Definition d_mem (d : list path) (q : path) : bool := existsb (path_eqb q) d.
+Definition p_get (s : pstate) (q : path) : option N := r_get (p_vals s) q.
+(* the root FsNode always exists *)
+Definition p_has (s : pstate) (q : path) : bool :=
+  match q with [] => true | _ :: _ => d_mem (p_dirs s) q end.
+
+Definition p_set (s : pstate) (p : path) (v : N) : pstate :=
+  {| p_vals := r_set (p_vals s) p v; p_dirs := prefixes p ++ p_dirs s |}.
+Definition p_ensure (s : pstate) (p : path) (fresh : N) : pstate * N * bool :=
+  match p_get s p with
+  | Some v => (s, v, false)
+  | None => (p_set s p fresh, fresh, true)
+  end.
+Definition p_delete (s : pstate) (p : path) : pstate :=
+  {| p_vals := r_delete (p_vals s) p;
+     p_dirs := filter (fun e => negb (is_prefix p e)) (p_dirs s) |}.
+Definition rekey_path (old new e : path) : path := new ++ skipn (length old) e.
+(* Move succeeds as soon as the source DIRECTORY exists, bound or not: the source
+   subtree (values and directories) is re-keyed below new, new and its ancestors
+   exist, whatever else was at or below new is dropped. *)
+Definition p_move (s : pstate) (old new : path) : pstate * bool :=
+  if p_has s old then
+    ({| p_vals := map (rekey old new) (filter (fun e => is_prefix old (fst e)) (p_vals s))
+                    ++ r_delete (r_delete (p_vals s) old) new;
+        p_dirs := map (rekey_path old new) (filter (is_prefix old) (p_dirs s))
+                    ++ prefixes new
+                    ++ filter (fun e => negb (is_prefix new e))
+                         (filter (fun e => negb (is_prefix old e)) (p_dirs s)) |}, true)
+  else (s, false).
+
+Definition p_step (s : pstate) (o : op) : pstate * ret :=
+  match o with
+  | Set_ p v => (p_set s p v, no_ret)
+  | Ensure p fresh => let '(s', v, called) := p_ensure s p fresh in (s', {| r_node := Some v; r_flag := called |})
+  | Get p => (s, {| r_node := p_get s p; r_flag := false |})
+  | Delete p => (p_delete s p, no_ret)
+  | Move old new => let '(s', moved) := p_move s old new in (s', {| r_node := None; r_flag := moved |})
+  end.
+
+Fixpoint p_run (s : pstate) (ops : list op) : pstate :=
+  match ops with
+  | [] => s
+  | o :: ops' => p_run (fst (p_step s o)) ops'
+  end.
+
+Definition p_init (root : option N) : pstate := {| p_vals := r_init root; p_dirs := [[]] |}.
+
+(* ---- known finding 0, decided WITHOUT the model tree: a Move whose source
+   directory exists in the placeholder-aware reference while the flat reference
+   has nothing at or below it, and the flat reference has something at or below
+   the target. *)
+Definition pghost_move (s : pstate) (m : rmap) (o : op) : bool :=
+  match o with
+  | Move old new => p_has s old && negb (r_has m old) && r_has m new
+  | _ => false
+  end.
+
+Fixpoint ptrigger_from (s : pstate) (m : rmap) (ops : list op) : bool :=
+  match ops with
+  | [] => false
+  | o :: ops' => pghost_move s m o || ptrigger_from (fst (p_step s o)) (fst (r_step m o)) ops'
+  end.
+
+Definition ptrigger (root : option N) (ops : list op) : bool :=
+  ptrigger_from (p_init root) (r_init root) ops.
+
+(* the same, one step from an arbitrary point of an arbitrary history: the flat
+   reference restarted from what the cache holds *)
+Definition pghost_here (s : pstate) (o : op) : bool := pghost_move s (p_vals s) o.
+
+(* ---- known finding 0 as seen on the model tree (used in the proofs only; the
+   theorems of props/C39.v are stated with [ptrigger] above, which proof/
+   shows to be the same predicate): Move whose source FsNode exists only as a
+   leftover placeholder (no node at or below it) while something is cached at or
+   below the target: the cache drops the target subtree, the reference (source
+   missing) keeps it. *)
 Definition ghost_move (t : tree) (m : rmap) (o : op) : bool :=
   match o with
   | Move old new => has t old && negb (r_has m old) && r_has m new
